@@ -231,3 +231,87 @@ _run_c05x = run
 def run(ctx):  # noqa: F811
     _run_c05x(ctx)
     r05_4(ctx, ctx.model)
+
+
+# ---------------------------------------------------------------------------------------------------------------- R05.5
+def r05_5(ctx, m):
+    R = "R05.5"
+    ctx.rule(R, "rebuild_domains refreshes EVERY ancestor of EVERY edited node after all edits: the walk `index = nodes[index][1]` "
+                "runs until the parent is no node index any more, its loop has no early exit (break/return, or a loop flag fed by "
+                "anything but the parent index: an ancestor above a 'meeting point' was computed while a sibling branch was still stale "
+                "and keeps a superset domain, which breaks the Jacobian chain while values stay right), and the driver calls it for "
+                "all members of `edited`", floor=3)
+    mod = m.module("nifty.cl.operator_tree_optimiser")
+    fi = next((f for f in mod.all_functions if f.name == "rebuild_domains"), None)
+    inner = m.func(OTO, "_optimise_operator")
+    if fi is None:
+        ctx.und(R, "nifty.cl.operator_tree_optimiser::rebuild_domains", "function missing", mod.relpath)
+        return
+    ctx.saw_func(fi)
+    par = fi.node.args.args[0].arg if fi.node.args.args else None
+    loops = [w for w in walk_no_nested(fi.node) if isinstance(w, ast.While)]
+    key = f"{fi.key}::the walk to the root has no early exit"
+    if len(loops) != 1 or par is None:
+        ctx.und(R, key, f"{len(loops)} while loops", fi)
+        return
+    w = loops[0]
+    # (a) the parent step: <par> = nodes[<par>][1] as a top-level statement of the loop body
+    steps = [st for st in w.body if isinstance(st, ast.Assign) and src(st.targets[0]) == par and isinstance(st.value, ast.Subscript)
+             and src(st.value).replace(" ", "").endswith(f"[{par}][1]")]
+    ctx.check(R, f"{fi.key}::every round steps to the parent unconditionally", True if len(steps) == 1 else None,
+              f"`{src(steps[0])}`" if steps else "no top-level parent step found", fi, w)
+    # (b) no break/return/continue in the loop (nested loops own their breaks)
+    exits = []
+
+    def scan(stmts, in_inner_loop):
+        for st in stmts:
+            if isinstance(st, (ast.Return,)) or (isinstance(st, (ast.Break, ast.Continue)) and not in_inner_loop):
+                exits.append(st)
+            if isinstance(st, (ast.FunctionDef, ast.ClassDef)):
+                continue
+            for fld in ("body", "orelse", "finalbody"):
+                sub = getattr(st, fld, None)
+                if isinstance(sub, list):
+                    scan(sub, in_inner_loop or isinstance(st, (ast.For, ast.While)))
+            for h in getattr(st, "handlers", []) or []:
+                scan(h.body, in_inner_loop)
+    scan(w.body, False)
+    ctx.check(R, key, not exits, f"`{src(exits[0])}` at line {exits[0].lineno} leaves the walk before the root" if exits else "no break/return/continue", fi,
+              exits[0] if exits else w)
+    # (c) the loop test is a flag that only the parent index feeds (or the type test itself)
+    tnames = {x.id for x in ast.walk(w.test) if isinstance(x, ast.Name)}
+    flags = tnames - {par, "type", "int", "isinstance"}
+    okc = True
+    why = f"`while {src(w.test)}`"
+    for fl in sorted(flags):
+        asg = [st for st in ast.walk(w) if isinstance(st, (ast.Assign, ast.AugAssign)) and any(src(t) == fl for t in (st.targets if isinstance(st, ast.Assign) else [st.target]))]
+        for st in asg:
+            nm = {x.id for x in ast.walk(st.value) if isinstance(x, ast.Name)} - {"type", "int", "isinstance"}
+            if isinstance(st, ast.AugAssign) or nm != {par} or isinstance(st.value, ast.BoolOp):
+                okc = False
+                why = f"loop flag `{fl}` is fed by `{src(st)}` (line {st.lineno}), not by the parent index alone"
+        if not asg:
+            okc = None
+            why = f"loop flag `{fl}` never assigned in the loop"
+    ctx.check(R, f"{fi.key}::the walk ends only when the parent is not a node index", okc, why, fi, w)
+    # (d) the driver: for <i> in edited: rebuild_domains(<i>)
+    drv = [lp for lp in inner.node.body if isinstance(lp, ast.For) and any(isinstance(c, ast.Call) and call_name(c) == "rebuild_domains" for c in ast.walk(lp))]
+    keyd = f"{inner.key}::rebuild_domains is called for every edited node"
+    if len(drv) != 1:
+        ctx.und(R, keyd, f"{len(drv)} driver loops", inner)
+        return
+    lp = drv[0]
+    itn = {x.id for x in ast.walk(lp.iter) if isinstance(x, ast.Name)}
+    guarded = [st for st in lp.body if not (isinstance(st, ast.Expr) and isinstance(st.value, ast.Call) and call_name(st.value) == "rebuild_domains"
+                                            and [src(a) for a in st.value.args] == [src(lp.target)])]
+    sliced = any(isinstance(x, ast.Subscript) for x in ast.walk(lp.iter))
+    ctx.check(R, keyd, "edited" in itn and not guarded and not sliced,
+              f"`for {src(lp.target)} in {src(lp.iter)}`" + (f" with body `{short(guarded[0], 80)}`" if guarded else ""), inner, lp)
+
+
+_run_c05y = run
+
+
+def run(ctx):  # noqa: F811
+    _run_c05y(ctx)
+    r05_5(ctx, ctx.model)
